@@ -94,3 +94,12 @@ def _ptr_empty(e, c):
         return _show(_erase(_parse(c.oracle))) == _show(_parse(c.impl)) and "(p " in c.oracle
     except Exception:
         return False
+
+
+@matcher("thrift.known-deviation")
+def _thrift_dev(e, c):
+    """t.enc: the bytes differ from the specification only by recorded deviations, and the one named by the entry is among them."""
+    if c.fn != "t.enc" or not c.oracle.startswith("spec="):
+        return False
+    m = re.search(r"known-deviations=([a-z0-9,]*)", c.oracle)
+    return bool(m) and e.get("deviation") in m.group(1).split(",")
